@@ -178,7 +178,8 @@ class World:
             # a handler the application registers while the loop is running (an entry of case["handlers"] marked late)
             h = self.late[a[1]]; loop.register_signal_handler(self.cls(h["cls"]), self.funcs.setdefault(h["hid"], self.mkh(h)), h.get("data"))
         elif k == "new_loop":
-            s = self.cls(a[1])(None, a[2]); s.sid = a[3]; loop.execute_new_loop(s); LOG.append(("new<",))
+            # (an optional fifth element: the source of the start signal - adapter-only, such cases are not compared with the model)
+            s = self.cls(a[1])(self.obj(a[4]) if len(a) > 4 else None, a[2]); s.sid = a[3]; loop.execute_new_loop(s); LOG.append(("new<",))
         elif k == "close_loop": loop.close_loop(); LOG.append(("closed<",))
         elif k == "proc":
             loop.process_signals(self.cls(a[1]) if a[1] is not None else None); LOG.append(("proc<",))
@@ -304,8 +305,16 @@ def run_real(case, loopkind="main"):
         loop.register_signal_handler(W.cls(h["cls"]), f, h.get("data"))
     import gc; gc.collect()
     if case.get("exc_handler"):
-        loop.register_signal_handler(ExceptionSignal, lambda s, d: LOG.append(("EXC-handled",)))
-    if case.get("quit_cb") is not None: loop.set_quit_callback(lambda d: LOG.append(("quitcb", d)), case["quit_cb"])
+        exc_calls = [0]
+        def on_exc(s_, d):
+            exc_calls[0] += 1; LOG.append(("EXC-handled",))
+            if exc_calls[0] in (case.get("exc_raises") or []): raise RuntimeError("the exception handler fails")     # adapter-only (such cases are not compared with the model)
+        loop.register_signal_handler(ExceptionSignal, on_exc)
+    if case.get("quit_cb") is not None:
+        if case.get("quit_cb_first") is not None:
+            # the application registers a quit callback and later replaces it (other argument): only the last registration counts
+            loop.set_quit_callback(lambda d: LOG.append(("quitcb", d)), case["quit_cb_first"])
+        loop.set_quit_callback(lambda d: LOG.append(("quitcb", d)), case["quit_cb"])
     out = io.StringIO(); err = io.StringIO(); old = sys.stdout, sys.stderr; sys.stdout, sys.stderr = out, err; OUTBUF[0] = out
     try:
         try:
